@@ -43,7 +43,8 @@ def s_case(draw, tier):
             "t0": draw(st.sampled_from([0.0, 0.0, 0.7, -1.3])),
             "sys": draw(sysgen.sys_spec(d)), "rho0": draw(gens.dm_spec(d)),
             "envs": envs, "controls": controls,
-            "trivial_pt": draw(st.booleans()), "pass_dt": draw(st.booleans())}
+            "trivial_pt": draw(st.booleans()), "pass_dt": draw(st.booleans()),
+            "prefix": draw(st.one_of(st.none(), st.integers(1, N)))}
 
 
 def _controls(case, d):
@@ -115,6 +116,12 @@ def run_case(case):
                         np.array(dyn.states), ref, tol, f"perm {perm}")
         out.check_close("times", np.array(dyn.times), t0 + dt * np.arange(N + 1), 1e-12 * max(1, abs(t0) + N * dt))
         results[perm] = np.array(dyn.states)
+        npre = case.get("prefix")
+        if npre is not None and n >= 1 and perm == perms[0] and not any(c["step"] > npre for c in case["controls"]):
+            # only the first n steps of longer process tensors
+            out.label("prefix-num_steps")
+            dpre = oqupy.compute_dynamics(system, rho0, process_tensor=pts if len(pts) > 1 else pts[0], num_steps=npre, **kw)
+            out.check_close("prefix", np.array(dpre.states), ref[:npre + 1], tol, f"num_steps={npre} of {N}")
     if len(perms) > 1:
         out.label("permutations")
         if commute:
